@@ -1,7 +1,1755 @@
-//! C16 (part 2): IntervalSet, ack::Ranges, packet::number::Map, SlidingWindow — not built yet.
+//! C16 (part 2): `IntervalSet`, `ack::Ranges`, `packet::number::Map`, `SlidingWindow` against plain
+//! reference models (canonical interval list that is itself validated against bit sets, `BTreeMap`,
+//! `BTreeSet` + right edge). Every sub-check interprets an op sequence on the real structure and on
+//! the model and compares the return value and the FULL observable content after every op.
+//!
+//! Latitude taken where the documentation is silent (all outcomes that keep the "same elements as a
+//! reference set" reading are accepted, see the final report of this module's author):
+//! * `IntervalSet::remove` under a limit: a split that would EXCEED the limit must be rejected with
+//!   `LimitExceeded` and leave the set unchanged; a split that lands exactly ON the limit may be
+//!   applied or rejected (the code rejects it).
+//! * `union` / `difference` under a limit apply interval by interval and may stop in the middle; on
+//!   `LimitExceeded` any content between the old and the exact result is accepted (and adopted).
+//! * `count()` is not called when the true count does not fit `usize`; `ranges()` cannot represent
+//!   an interval ending at `T::MAX` and is not compared for it.
+//! * `Map::get_range()` is only compared while the map is non-empty.
+//! * `EvictedSet` = the packet numbers of the *old* window (right edge excluded) that were never
+//!   inserted and can no longer be inserted after the slide; numbers right of the old right edge
+//!   that a far jump skips are not representable in the 128-bit set and are not expected.
 
-use vcore::SubCheck;
+use core::{fmt::Debug, num::NonZeroUsize, ops::Bound};
+use proptest::prelude::*;
+use s2n_quic_core::{
+    ack,
+    frame::ack::AckRanges as _,
+    interval_set::{Interval, IntervalBound, IntervalSet, IntervalSetError},
+    packet::number::{
+        Map, PacketNumber, PacketNumberRange, PacketNumberSpace, SlidingWindow, SlidingWindowError,
+    },
+    varint::VarInt,
+};
+use serde::{Deserialize, Serialize};
+use std::collections::{BTreeMap, BTreeSet};
+use std::sync::OnceLock;
+use vcore::{ensure_that, fail, gen::pick_index, CaseResult, EnumCheck, Obs, PropCheck, SubCheck, Tier};
+
+const PN_MAX: u64 = (1 << 62) - 1;
+
+fn pn(v: u64) -> PacketNumber {
+    PacketNumberSpace::ApplicationData.new_packet_number(VarInt::new(v).unwrap())
+}
+
+// =======================================================================================
+// reference model: canonical list of closed intervals over u64
+
+#[derive(Clone, Debug, Default, PartialEq, Eq)]
+struct ISet {
+    /// sorted, disjoint, non-adjacent, inclusive
+    iv: Vec<(u64, u64)>,
+}
+
+impl ISet {
+    fn normalize(mut v: Vec<(u64, u64)>) -> ISet {
+        v.sort();
+        let mut out: Vec<(u64, u64)> = Vec::with_capacity(v.len());
+        for (s, e) in v {
+            assert!(s <= e, "model interval must be valid");
+            if let Some(last) = out.last_mut() {
+                if last.1 == u64::MAX || s <= last.1 + 1 {
+                    last.1 = last.1.max(e);
+                    continue;
+                }
+            }
+            out.push((s, e));
+        }
+        ISet { iv: out }
+    }
+    fn len(&self) -> usize {
+        self.iv.len()
+    }
+    fn insert(&self, a: u64, b: u64) -> ISet {
+        let mut v = self.iv.clone();
+        v.push((a, b));
+        ISet::normalize(v)
+    }
+    fn remove(&self, a: u64, b: u64) -> ISet {
+        assert!(a <= b);
+        let mut out = Vec::with_capacity(self.iv.len() + 1);
+        for &(s, e) in &self.iv {
+            if e < a || s > b {
+                out.push((s, e));
+                continue;
+            }
+            if s < a {
+                out.push((s, a - 1));
+            }
+            if e > b {
+                out.push((b + 1, e));
+            }
+        }
+        ISet { iv: out }
+    }
+    fn union(&self, o: &ISet) -> ISet {
+        let mut v = self.iv.clone();
+        v.extend_from_slice(&o.iv);
+        ISet::normalize(v)
+    }
+    fn difference(&self, o: &ISet) -> ISet {
+        let mut cur = self.clone();
+        for &(s, e) in &o.iv {
+            cur = cur.remove(s, e);
+        }
+        cur
+    }
+    fn intersection(&self, o: &ISet) -> ISet {
+        let mut v = vec![];
+        for &(s, e) in &self.iv {
+            for &(s2, e2) in &o.iv {
+                let lo = s.max(s2);
+                let hi = e.min(e2);
+                if lo <= hi {
+                    v.push((lo, hi));
+                }
+            }
+        }
+        ISet::normalize(v)
+    }
+    fn contains(&self, x: u64) -> bool {
+        self.iv.iter().any(|&(s, e)| s <= x && x <= e)
+    }
+    fn count(&self) -> u128 {
+        self.iv.iter().map(|&(s, e)| (e - s) as u128 + 1).sum()
+    }
+    fn is_subset_of(&self, o: &ISet) -> bool {
+        self.difference(o).iv.is_empty()
+    }
+    /// number of intervals that `[a, b]` overlaps or touches
+    fn touching(&self, a: u64, b: u64) -> usize {
+        self.iv
+            .iter()
+            .filter(|&&(s, e)| s <= b.saturating_add(1) && e.saturating_add(1) >= a)
+            .count()
+    }
+    fn is_canonical(&self) -> bool {
+        self.iv.iter().all(|&(s, e)| s <= e)
+            && self.iv.windows(2).all(|w| w[0].1 < u64::MAX && w[0].1 + 1 < w[1].0)
+    }
+    /// the elements, only for small sets
+    fn elements(&self) -> Vec<u64> {
+        let mut v = vec![];
+        for &(s, e) in &self.iv {
+            let mut x = s;
+            loop {
+                v.push(x);
+                if x == e {
+                    break;
+                }
+                x += 1;
+            }
+        }
+        v
+    }
+}
+
+/// The interval-list model is itself compared with plain bit sets over the domain 0..=7 (all 256
+/// sets, all single-interval ops, all pairs for the binary ops) once per process.
+fn model_selftest() {
+    static ONCE: std::sync::Once = std::sync::Once::new();
+    ONCE.call_once(|| {
+        let to_set = |bits: u16| -> ISet {
+            ISet::normalize((0..8u64).filter(|i| (bits >> i) & 1 == 1).map(|i| (i, i)).collect())
+        };
+        let to_bits = |s: &ISet| -> u16 {
+            assert!(s.is_canonical(), "model self-test: not canonical {s:?}");
+            let mut b = 0u16;
+            for x in s.elements() {
+                assert!(x < 8);
+                b |= 1 << x;
+            }
+            b
+        };
+        let sets: Vec<ISet> = (0u16..256).map(to_set).collect();
+        for a in 0u16..256 {
+            let sa = &sets[a as usize];
+            assert_eq!(to_bits(sa), a);
+            assert_eq!(sa.count(), a.count_ones() as u128);
+            for x in 0..8u64 {
+                assert_eq!(sa.contains(x), (a >> x) & 1 == 1);
+            }
+            for lo in 0..8u64 {
+                for hi in lo..8 {
+                    let mask: u16 = (((1u32 << (hi - lo + 1)) - 1) as u16) << lo;
+                    assert_eq!(to_bits(&sa.insert(lo, hi)), a | mask);
+                    assert_eq!(to_bits(&sa.remove(lo, hi)), a & !mask);
+                }
+            }
+            for b in 0u16..256 {
+                let sb = &sets[b as usize];
+                assert_eq!(to_bits(&sa.union(sb)), a | b);
+                assert_eq!(to_bits(&sa.intersection(sb)), a & b);
+                assert_eq!(to_bits(&sa.difference(sb)), a & !b);
+                assert_eq!(sa.is_subset_of(sb), a & !b == 0);
+            }
+        }
+        let top = ISet::default().insert(u64::MAX - 1, u64::MAX).insert(0, 0);
+        assert_eq!(top.iv, vec![(0, 0), (u64::MAX - 1, u64::MAX)]);
+        assert_eq!(top.insert(1, u64::MAX - 2).iv, vec![(0, u64::MAX)]);
+        assert_eq!(top.insert(u64::MAX, u64::MAX).iv, top.iv);
+        assert_eq!(top.remove(u64::MAX, u64::MAX).iv, vec![(0, 0), (u64::MAX - 1, u64::MAX - 1)]);
+        assert_eq!(top.remove(0, u64::MAX).iv, vec![]);
+        assert_eq!(top.touching(u64::MAX - 3, u64::MAX - 3), 0);
+        assert_eq!(top.touching(1, u64::MAX - 2), 2);
+    });
+}
+
+// =======================================================================================
+// element domains
+
+pub trait Dom: IntervalBound + Debug {
+    const MAX: u64;
+    fn of(v: u64) -> Self;
+    fn val(self) -> u64;
+}
+
+impl Dom for u8 {
+    const MAX: u64 = 255;
+    fn of(v: u64) -> Self {
+        u8::try_from(v).unwrap()
+    }
+    fn val(self) -> u64 {
+        self as u64
+    }
+}
+
+impl Dom for u64 {
+    const MAX: u64 = u64::MAX;
+    fn of(v: u64) -> Self {
+        v
+    }
+    fn val(self) -> u64 {
+        self
+    }
+}
+
+impl Dom for PacketNumber {
+    const MAX: u64 = PN_MAX;
+    fn of(v: u64) -> Self {
+        pn(v)
+    }
+    fn val(self) -> u64 {
+        self.as_u64()
+    }
+}
+
+// =======================================================================================
+// positions relative to the model state
+
+#[derive(Clone, Copy, Debug, Hash, PartialEq, Eq, Serialize, Deserialize)]
+pub enum Pos {
+    Abs(u64),
+    /// start (`end == false`) or end of the idx-th interval currently held, plus delta
+    Edge { idx: u16, end: bool, delta: i8 },
+}
+
+#[derive(Clone, Copy, Debug, Hash, PartialEq, Eq, Serialize, Deserialize)]
+pub enum End {
+    /// b = a + len
+    Len(u32),
+    /// the interval spans the two positions (sorted)
+    At(Pos),
+    /// b = a - 1 - d: an inverted (invalid) interval
+    Before(u8),
+}
+
+#[derive(Clone, Copy, Debug, Hash, PartialEq, Eq, Serialize, Deserialize)]
+pub struct Iv {
+    pub a: Pos,
+    pub end: End,
+}
+
+fn shift(base: u64, d: i64, max: u64) -> u64 {
+    if d >= 0 {
+        base.saturating_add(d as u64).min(max)
+    } else {
+        base.saturating_sub((-d) as u64)
+    }
+}
+
+fn resolve_pos(m: &ISet, p: Pos, max: u64) -> u64 {
+    match p {
+        Pos::Abs(v) => v.min(max),
+        Pos::Edge { idx, end, delta } => {
+            if m.iv.is_empty() {
+                return (delta.unsigned_abs() as u64).min(max);
+            }
+            let (s, e) = m.iv[pick_index(idx, m.iv.len())];
+            shift(if end { e } else { s }, delta as i64, max)
+        }
+    }
+}
+
+/// resolves to (a, b); a > b denotes an intentionally invalid interval
+fn resolve_iv(m: &ISet, iv: Iv, max: u64) -> (u64, u64) {
+    let a = resolve_pos(m, iv.a, max);
+    match iv.end {
+        End::Len(l) => (a, a.saturating_add(l as u64).min(max)),
+        End::At(p) => {
+            let b = resolve_pos(m, p, max);
+            (a.min(b), a.max(b))
+        }
+        End::Before(d) => match a.checked_sub(1 + d as u64) {
+            Some(b) => (a, b),
+            None => (a, a),
+        },
+    }
+}
+
+// =======================================================================================
+// IntervalSet: ops, interpreter
+
+#[derive(Clone, Copy, Debug, Hash, PartialEq, Eq, Serialize, Deserialize)]
+pub enum Form {
+    /// `a..=b`
+    Inclusive,
+    /// `a..b+1`
+    HalfOpen,
+    /// `(Bound::Included(a), Bound::Included(b))`
+    Bounds,
+    /// an `Interval<T>` value
+    Interval,
+}
+
+#[derive(Clone, Debug, Hash, PartialEq, Eq, Serialize, Deserialize)]
+pub enum SetOp {
+    Insert { iv: Iv, form: Form },
+    /// `insert_front`; falls back to `insert` unless the interval starts at or below the minimum
+    InsertFront { iv: Iv },
+    InsertValue(Pos),
+    Remove { iv: Iv, form: Form },
+    RemoveValue(Pos),
+    Union(Vec<Iv>),
+    Difference(Vec<Iv>),
+    Intersection(Vec<Iv>),
+    IntersectionIter(Vec<Iv>),
+    PopMin,
+    Clear,
+    /// 0 = `remove_limit`
+    SetLimit(u8),
+    /// n inserts of `width` elements, `gap` apart (builds many intervals so that the binary-search
+    /// start index is used)
+    Comb { base: Pos, n: u8, width: u8, gap: u8 },
+}
+
+#[derive(Clone, Debug, Hash, PartialEq, Eq, Serialize, Deserialize)]
+pub struct SetCase {
+    /// 0 = start empty; 1 = start with 18 single-element intervals 10, 12, ..., 44
+    pub preset: u8,
+    /// 0 = no limit
+    pub limit: u8,
+    pub ops: Vec<SetOp>,
+}
+
+fn same_set_err(r: &Result<(), IntervalSetError>, want: Option<IntervalSetError>) -> bool {
+    match (r, want) {
+        (Ok(()), None) => true,
+        (Err(e), Some(w)) => *e == w,
+        _ => false,
+    }
+}
+
+fn read_intervals<T: Dom>(set: &IntervalSet<T>) -> Vec<(u64, u64)> {
+    set.intervals().map(|i| (i.start_inclusive().val(), i.end_inclusive().val())).collect()
+}
+
+const ITER_FULL: u128 = 1024;
+
+/// full observable content of `set` == model
+fn compare_set<T: Dom>(px: &str, step: usize, op: &dyn Debug, set: &IntervalSet<T>, m: &ISet) -> CaseResult {
+    let got = read_intervals(set);
+    if got != m.iv {
+        ensure_that!(got.iter().all(|(s, e)| s <= e), format!("{px}:invalid-interval"), "step {step} {op:?}: holds an interval with start > end: {got:?}");
+        let same_elements = ISet::normalize(got.clone()).iv == m.iv;
+        if same_elements {
+            fail!(format!("{px}:not-canonical"), "step {step} {op:?}: same elements as the reference set but intervals are unsorted/overlapping/adjacent: {got:?}, expected {:?}", m.iv);
+        }
+        fail!(format!("{px}:content"), "step {step} {op:?}: intervals {got:?}, reference set {:?}", m.iv);
+    }
+    ensure_that!(set.interval_len() == m.len(), format!("{px}:interval_len"), "step {step} {op:?}: interval_len {} model {}", set.interval_len(), m.len());
+    ensure_that!(set.is_empty() == m.iv.is_empty(), format!("{px}:is_empty"), "step {step} {op:?}: is_empty {}", set.is_empty());
+    let min = set.min_value().map(Dom::val);
+    let max = set.max_value().map(Dom::val);
+    ensure_that!(min == m.iv.first().map(|x| x.0), format!("{px}:min_value"), "step {step} {op:?}: min_value {min:?} model {:?}", m.iv.first());
+    ensure_that!(max == m.iv.last().map(|x| x.1), format!("{px}:max_value"), "step {step} {op:?}: max_value {max:?} model {:?}", m.iv.last());
+    let incl: Vec<(u64, u64)> = set.inclusive_ranges().map(|r| (r.start().val(), r.end().val())).collect();
+    ensure_that!(incl == m.iv, format!("{px}:inclusive_ranges"), "step {step} {op:?}: inclusive_ranges {incl:?} model {:?}", m.iv);
+    for (r, &(s, e)) in set.ranges().zip(m.iv.iter()) {
+        if e < T::MAX {
+            ensure_that!(r.start.val() == s && r.end.val() == e + 1, format!("{px}:ranges"), "step {step} {op:?}: ranges() yields {:?} for [{s}, {e}]", r);
+        }
+    }
+    ensure_that!(set.ranges().count() == m.len(), format!("{px}:ranges"), "step {step} {op:?}: ranges() length");
+    let count = m.count();
+    if count <= usize::MAX as u128 {
+        ensure_that!(set.count() as u128 == count, format!("{px}:count"), "step {step} {op:?}: count {} model {count}", set.count());
+    }
+    // membership around every edge
+    let probe = |x: u64| -> CaseResult {
+        let got = set.contains(&T::of(x));
+        ensure_that!(got == m.contains(x), format!("{px}:contains"), "step {step} {op:?}: contains({x}) = {got}, reference set {:?}", m.iv);
+        Ok(())
+    };
+    probe(0)?;
+    probe(T::MAX)?;
+    for &(s, e) in &m.iv {
+        probe(s)?;
+        probe(e)?;
+        probe(s.saturating_sub(1))?;
+        probe(e.saturating_add(1).min(T::MAX))?;
+        probe(s + (e - s) / 2)?;
+    }
+    // element iteration
+    if count <= ITER_FULL {
+        let want = m.elements();
+        let fwd: Vec<u64> = set.iter().map(Dom::val).collect();
+        ensure_that!(fwd == want, format!("{px}:iter"), "step {step} {op:?}: iter() yields {fwd:?}, reference set {:?}", m.iv);
+        let mut rev: Vec<u64> = set.iter().rev().map(Dom::val).collect();
+        rev.reverse();
+        ensure_that!(rev == want, format!("{px}:iter-rev"), "step {step} {op:?}: iter().rev() yields (reversed) {rev:?}, reference set {:?}", m.iv);
+        if count <= 300 {
+            // alternate both ends
+            let mut it = set.iter();
+            let mut front = vec![];
+            let mut back = vec![];
+            let mut guard = 0;
+            loop {
+                guard += 1;
+                ensure_that!(guard < 1000, format!("{px}:iter-mixed"), "step {step} {op:?}: alternating next()/next_back() does not terminate");
+                match it.next() {
+                    Some(x) => front.push(x.val()),
+                    None => break,
+                }
+                match it.next_back() {
+                    Some(x) => back.push(x.val()),
+                    None => break,
+                }
+            }
+            back.reverse();
+            front.extend(back);
+            ensure_that!(front == want, format!("{px}:iter-mixed"), "step {step} {op:?}: alternating next()/next_back() yields {front:?}, reference set {:?}", m.iv);
+        }
+    } else {
+        let head: Vec<u64> = set.iter().take(64).map(Dom::val).collect();
+        let mut want = vec![];
+        'o: for &(s, e) in &m.iv {
+            let mut x = s;
+            loop {
+                if want.len() == 64 {
+                    break 'o;
+                }
+                want.push(x);
+                if x == e {
+                    break;
+                }
+                x += 1;
+            }
+        }
+        ensure_that!(head == want, format!("{px}:iter"), "step {step} {op:?}: first elements of iter() {head:?}, expected {want:?}");
+        let tail: Vec<u64> = set.iter().rev().take(64).map(Dom::val).collect();
+        let mut want = vec![];
+        'p: for &(s, e) in m.iv.iter().rev() {
+            let mut x = e;
+            loop {
+                if want.len() == 64 {
+                    break 'p;
+                }
+                want.push(x);
+                if x == s {
+                    break;
+                }
+                x -= 1;
+            }
+        }
+        ensure_that!(tail == want, format!("{px}:iter-rev"), "step {step} {op:?}: first elements of iter().rev() {tail:?}, expected {want:?}");
+    }
+    Ok(())
+}
+
+/// what a single insert must do under the documented limit rule ("the number of [intervals] cannot
+/// exceed this amount, otherwise insert calls will be rejected")
+fn model_insert(m: &ISet, a: u64, b: u64, limit: Option<usize>) -> Result<ISet, ()> {
+    let new = m.insert(a, b);
+    if let Some(l) = limit {
+        if new.len() > m.len() && new.len() > l {
+            return Err(());
+        }
+    }
+    Ok(new)
+}
+
+enum RemoveExpect {
+    Ok(ISet),
+    MustReject,
+    /// result lands exactly on the limit through a split: applied or rejected
+    Either(ISet),
+}
+
+fn model_remove(m: &ISet, a: u64, b: u64, limit: Option<usize>) -> RemoveExpect {
+    let new = m.remove(a, b);
+    if let Some(l) = limit {
+        if new.len() > m.len() {
+            if new.len() > l {
+                return RemoveExpect::MustReject;
+            }
+            if new.len() == l {
+                return RemoveExpect::Either(new);
+            }
+        }
+    }
+    RemoveExpect::Ok(new)
+}
+
+fn call_with_form<T: Dom>(set: &mut IntervalSet<T>, insert: bool, a: u64, b: u64, form: Form) -> Result<(), IntervalSetError> {
+    let (ta, tb) = (T::of(a), T::of(b));
+    macro_rules! go {
+        ($r:expr) => {
+            if insert {
+                set.insert($r)
+            } else {
+                set.remove($r)
+            }
+        };
+    }
+    match form {
+        Form::HalfOpen if b < T::MAX => go!(ta..T::of(b + 1)),
+        Form::Inclusive | Form::HalfOpen => go!(ta..=tb),
+        Form::Bounds => go!((Bound::Included(ta), Bound::Included(tb))),
+        Form::Interval => {
+            let i: Interval<T> = (ta..=tb).into();
+            go!(i)
+        }
+    }
+}
+
+struct SetStats {
+    merged: bool,
+    split: bool,
+}
+
+pub fn run_set<T: Dom>(case: &SetCase, obs: &mut Obs) -> CaseResult {
+    model_selftest();
+    let px = "interval_set";
+    let mut limit: Option<usize> = if case.limit == 0 { None } else { Some(case.limit as usize) };
+    let mut m = ISet::default();
+    let mut set: IntervalSet<T> = if case.preset == 0 {
+        match limit {
+            Some(l) => IntervalSet::with_limit(NonZeroUsize::new(l).unwrap()),
+            None => IntervalSet::new(),
+        }
+    } else {
+        let mut set = IntervalSet::new();
+        for k in 0..18u64 {
+            let v = 10 + 2 * k;
+            let r = set.insert_value(T::of(v));
+            ensure_that!(r.is_ok(), "interval_set:insert-result", "preset insert_value({v}) returned {r:?}");
+            m = m.insert(v, v);
+        }
+        if let Some(l) = limit {
+            set.set_limit(NonZeroUsize::new(l).unwrap());
+        }
+        set
+    };
+    compare_set(px, 0, &"initial", &set, &m)?;
+    let mut st = SetStats { merged: false, split: false };
+    let mut units = 0u64;
+
+    for (step, op) in case.ops.iter().enumerate() {
+        units += 1;
+        match op {
+            SetOp::Insert { .. } | SetOp::InsertFront { .. } | SetOp::InsertValue(_) => {
+                let (a, b, kind) = match op {
+                    SetOp::Insert { iv, form } => {
+                        let (a, b) = resolve_iv(&m, *iv, T::MAX);
+                        (a, b, Some(*form))
+                    }
+                    SetOp::InsertFront { iv } => {
+                        let (a, b) = resolve_iv(&m, *iv, T::MAX);
+                        (a, b, None)
+                    }
+                    SetOp::InsertValue(p) => {
+                        let a = resolve_pos(&m, *p, T::MAX);
+                        (a, a, Some(Form::Bounds))
+                    }
+                    _ => unreachable!(),
+                };
+                let front_ok = m.iv.first().map(|f| a <= f.0).unwrap_or(true);
+                let got = match (op, kind) {
+                    (SetOp::InsertValue(_), _) => set.insert_value(T::of(a)),
+                    (_, None) if front_ok => {
+                        obs.class("insert_front");
+                        set.insert_front(T::of(a)..=T::of(b))
+                    }
+                    (_, None) => set.insert(T::of(a)..=T::of(b)),
+                    (_, Some(form)) => call_with_form(&mut set, true, a, b, form),
+                };
+                if a > b {
+                    obs.class("invalid-interval");
+                    ensure_that!(same_set_err(&got, Some(IntervalSetError::InvalidInterval)), "interval_set:insert-result", "step {step} {op:?}: inverted interval [{a}, {b}] returned {got:?}, expected InvalidInterval");
+                } else {
+                    match model_insert(&m, a, b, limit) {
+                        Ok(new) => {
+                            ensure_that!(same_set_err(&got, None), "interval_set:insert-result", "step {step} {op:?}: insert [{a}, {b}] into {:?} (limit {limit:?}) returned {got:?}, expected Ok", m.iv);
+                            let t = m.touching(a, b);
+                            st.merged |= t >= 2;
+                            obs.class_if(t >= 2, "merge>=2");
+                            obs.class_if(t >= 3, "merge>=3");
+                            m = new;
+                        }
+                        Err(()) => {
+                            obs.class("insert-limit-exceeded");
+                            ensure_that!(same_set_err(&got, Some(IntervalSetError::LimitExceeded)), "interval_set:insert-result", "step {step} {op:?}: insert [{a}, {b}] into {:?} (limit {limit:?}) returned {got:?}, expected LimitExceeded", m.iv);
+                        }
+                    }
+                }
+            }
+            SetOp::Remove { .. } | SetOp::RemoveValue(_) => {
+                let (a, b, form) = match op {
+                    SetOp::Remove { iv, form } => {
+                        let (a, b) = resolve_iv(&m, *iv, T::MAX);
+                        (a, b, Some(*form))
+                    }
+                    SetOp::RemoveValue(p) => {
+                        let a = resolve_pos(&m, *p, T::MAX);
+                        (a, a, None)
+                    }
+                    _ => unreachable!(),
+                };
+                let got = match form {
+                    Some(form) => call_with_form(&mut set, false, a, b, form),
+                    None => set.remove_value(T::of(a)),
+                };
+                if a > b {
+                    obs.class("invalid-interval");
+                    ensure_that!(same_set_err(&got, Some(IntervalSetError::InvalidInterval)), "interval_set:remove-result", "step {step} {op:?}: inverted interval [{a}, {b}] returned {got:?}, expected InvalidInterval");
+                } else {
+                    match model_remove(&m, a, b, limit) {
+                        RemoveExpect::Ok(new) => {
+                            ensure_that!(same_set_err(&got, None), "interval_set:remove-result", "step {step} {op:?}: remove [{a}, {b}] from {:?} (limit {limit:?}) returned {got:?}, expected Ok", m.iv);
+                            if new.len() > m.len() {
+                                st.split = true;
+                                obs.class("split");
+                            }
+                            obs.class_if(new.len() + 2 <= m.len(), "remove-spans>=2");
+                            m = new;
+                        }
+                        RemoveExpect::MustReject => {
+                            obs.class("remove-limit-exceeded");
+                            ensure_that!(same_set_err(&got, Some(IntervalSetError::LimitExceeded)), "interval_set:remove-result", "step {step} {op:?}: splitting remove [{a}, {b}] from {:?} (limit {limit:?}) returned {got:?}, expected LimitExceeded", m.iv);
+                        }
+                        RemoveExpect::Either(new) => match got {
+                            Ok(()) => {
+                                st.split = true;
+                                obs.class("split");
+                                m = new;
+                            }
+                            Err(IntervalSetError::LimitExceeded) => obs.class("remove-split-onto-limit-rejected"),
+                            Err(e) => fail!("interval_set:remove-result", "step {step} {op:?}: remove [{a}, {b}] from {:?} (limit {limit:?}) returned {e:?}", m.iv),
+                        },
+                    }
+                }
+            }
+            SetOp::Union(ivs) | SetOp::Difference(ivs) | SetOp::Intersection(ivs) | SetOp::IntersectionIter(ivs) => {
+                // the operand is built through the same API and verified against its own model
+                let mut om = ISet::default();
+                let mut other: IntervalSet<T> = IntervalSet::new();
+                for iv in ivs {
+                    let (a, b) = resolve_iv(&m, *iv, T::MAX);
+                    if a > b {
+                        continue;
+                    }
+                    let r = other.insert(T::of(a)..=T::of(b));
+                    ensure_that!(r.is_ok(), "interval_set:insert-result", "step {step} {op:?}: operand insert [{a}, {b}] returned {r:?}");
+                    om = om.insert(a, b);
+                }
+                compare_set(px, step, &("operand of", op), &other, &om)?;
+                match op {
+                    SetOp::Union(_) => {
+                        let exact = m.union(&om);
+                        let mut cur = m.clone();
+                        let mut may_fail = false;
+                        for &(s, e) in &om.iv {
+                            match model_insert(&cur, s, e, limit) {
+                                Ok(n) => cur = n,
+                                Err(()) => {
+                                    may_fail = true;
+                                    break;
+                                }
+                            }
+                        }
+                        let got = set.union(&other);
+                        let merged = om.iv.iter().any(|&(s, e)| m.touching(s, e) >= 2);
+                        match got {
+                            Ok(()) => {
+                                obs.class_if(may_fail, "union-ok-although-a-step-exceeds-limit");
+                                if merged {
+                                    st.merged = true;
+                                    obs.class("merge>=2");
+                                }
+                                m = exact;
+                            }
+                            Err(IntervalSetError::LimitExceeded) if may_fail => {
+                                obs.class("union-limit-exceeded");
+                                let actual = ISet::normalize(read_intervals(&set));
+                                ensure_that!(m.is_subset_of(&actual) && actual.is_subset_of(&exact), "interval_set:union-partial", "step {step} {op:?}: after LimitExceeded the set {:?} is not between the old set {:?} and the union {:?}", actual.iv, m.iv, exact.iv);
+                                m = actual;
+                            }
+                            Err(e) => fail!("interval_set:union-result", "step {step} {op:?}: union of {:?} with {:?} (limit {limit:?}) returned {e:?}", m.iv, om.iv),
+                        }
+                    }
+                    SetOp::Difference(_) => {
+                        let exact = m.difference(&om);
+                        let mut cur = m.clone();
+                        let mut may_fail = false;
+                        let mut split = false;
+                        for &(s, e) in &om.iv {
+                            match model_remove(&cur, s, e, limit) {
+                                RemoveExpect::Ok(n) => {
+                                    split |= n.len() > cur.len();
+                                    cur = n;
+                                }
+                                RemoveExpect::Either(n) => {
+                                    may_fail = true;
+                                    split = true;
+                                    cur = n;
+                                }
+                                RemoveExpect::MustReject => {
+                                    may_fail = true;
+                                    break;
+                                }
+                            }
+                        }
+                        let got = set.difference(&other);
+                        match got {
+                            Ok(()) => {
+                                if split {
+                                    st.split = true;
+                                    obs.class("split");
+                                }
+                                m = exact;
+                            }
+                            Err(IntervalSetError::LimitExceeded) if may_fail => {
+                                obs.class("difference-limit-exceeded");
+                                let actual = ISet::normalize(read_intervals(&set));
+                                ensure_that!(exact.is_subset_of(&actual) && actual.is_subset_of(&m), "interval_set:difference-partial", "step {step} {op:?}: after LimitExceeded the set {:?} is not between the difference {:?} and the old set {:?}", actual.iv, exact.iv, m.iv);
+                                m = actual;
+                            }
+                            Err(e) => fail!("interval_set:difference-result", "step {step} {op:?}: difference of {:?} with {:?} (limit {limit:?}) returned {e:?}", m.iv, om.iv),
+                        }
+                    }
+                    SetOp::Intersection(_) => {
+                        let exact = m.intersection(&om);
+                        let got = set.intersection(&other);
+                        ensure_that!(got.is_ok(), "interval_set:intersection-result", "step {step} {op:?}: returned {got:?}");
+                        if exact.len() > m.len() {
+                            st.split = true;
+                            obs.class("split");
+                        }
+                        m = exact;
+                    }
+                    SetOp::IntersectionIter(_) => {
+                        let exact = m.intersection(&om);
+                        let pieces: Vec<(u64, u64)> = set.intersection_iter(&other).map(|i| (i.start_inclusive().val(), i.end_inclusive().val())).collect();
+                        ensure_that!(pieces.iter().all(|(s, e)| s <= e) && pieces.windows(2).all(|w| w[0].1 < w[1].0), "interval_set:intersection_iter", "step {step} {op:?}: pieces not ascending/disjoint: {pieces:?}");
+                        ensure_that!(ISet::normalize(pieces.clone()).iv == exact.iv, "interval_set:intersection_iter", "step {step} {op:?}: {:?} ∩ {:?} yielded {pieces:?}, expected {:?}", m.iv, om.iv, exact.iv);
+                        if exact.count() <= 300 {
+                            let flat: Vec<u64> = set.intersection_iter(&other).flatten().map(Dom::val).collect();
+                            ensure_that!(flat == exact.elements(), "interval_set:intersection_iter", "step {step} {op:?}: flattened {flat:?}, expected {:?}", exact.iv);
+                        }
+                        // the operands are untouched
+                        compare_set(px, step, &("operand after", op), &other, &om)?;
+                    }
+                    _ => unreachable!(),
+                }
+            }
+            SetOp::PopMin => {
+                let got = set.pop_min().map(|i| (i.start_inclusive().val(), i.end_inclusive().val()));
+                let want = m.iv.first().copied();
+                ensure_that!(got == want, "interval_set:pop_min", "step {step}: pop_min returned {got:?}, lowest interval of the reference set {want:?}");
+                if want.is_some() {
+                    m.iv.remove(0);
+                }
+            }
+            SetOp::Clear => {
+                set.clear();
+                m = ISet::default();
+            }
+            SetOp::SetLimit(l) => {
+                if *l == 0 {
+                    set.remove_limit();
+                    limit = None;
+                } else {
+                    set.set_limit(NonZeroUsize::new(*l as usize).unwrap());
+                    limit = Some(*l as usize);
+                }
+            }
+            SetOp::Comb { base, n, width, gap } => {
+                let mut a = resolve_pos(&m, *base, T::MAX);
+                for _ in 0..*n {
+                    let b = a.saturating_add(*width as u64).min(T::MAX);
+                    let got = set.insert(T::of(a)..=T::of(b));
+                    match model_insert(&m, a, b, limit) {
+                        Ok(new) => {
+                            ensure_that!(same_set_err(&got, None), "interval_set:insert-result", "step {step} {op:?}: insert [{a}, {b}] into {:?} (limit {limit:?}) returned {got:?}, expected Ok", m.iv);
+                            st.merged |= m.touching(a, b) >= 2;
+                            m = new;
+                        }
+                        Err(()) => {
+                            ensure_that!(same_set_err(&got, Some(IntervalSetError::LimitExceeded)), "interval_set:insert-result", "step {step} {op:?}: insert [{a}, {b}] into {:?} (limit {limit:?}) returned {got:?}, expected LimitExceeded", m.iv);
+                        }
+                    }
+                    units += 1;
+                    match b.checked_add(2 + *gap as u64) {
+                        Some(n) if n <= T::MAX => a = n,
+                        _ => break,
+                    }
+                }
+            }
+        }
+        compare_set(px, step, op, &set, &m)?;
+        obs.class_if(m.len() >= 16, "intervals>=16");
+    }
+    obs.units = units;
+    obs.nontrivial(st.merged || st.split);
+    obs.class_if(st.merged && st.split, "merge+split");
+    obs.class_if(limit.is_some(), "limited");
+    Ok(())
+}
+
+// ---- generated u64 sequences -----------------------------------------------------------
+
+fn val_u64() -> impl Strategy<Value = u64> {
+    prop_oneof![
+        4 => 0u64..=48,
+        2 => (0u64..=8).prop_map(|d| u64::MAX - d),
+        2 => (prop::sample::select(vec![1u64 << 8, 1 << 16, 1 << 32, 1 << 63]), 0u64..=6).prop_map(|(p, d)| p + d - 3),
+        1 => any::<u64>(),
+    ]
+}
+
+fn edge_pos() -> impl Strategy<Value = Pos> {
+    prop_oneof![
+        6 => (any::<u16>(), any::<bool>(), -3i8..=3).prop_map(|(idx, end, delta)| Pos::Edge { idx, end, delta }),
+        1 => (any::<u16>(), any::<bool>(), any::<i8>()).prop_map(|(idx, end, delta)| Pos::Edge { idx, end, delta }),
+    ]
+}
+
+fn pos_u64() -> impl Strategy<Value = Pos> {
+    prop_oneof![
+        5 => edge_pos(),
+        4 => val_u64().prop_map(Pos::Abs),
+    ]
+}
+
+fn iv_with(pos: impl Strategy<Value = Pos> + Clone + 'static) -> impl Strategy<Value = Iv> {
+    let end = prop_oneof![
+        6 => (0u32..=5).prop_map(End::Len),
+        1 => (0u32..=300).prop_map(End::Len),
+        3 => pos.clone().prop_map(End::At),
+        1 => (0u8..=3).prop_map(End::Before),
+    ];
+    (pos, end).prop_map(|(a, end)| Iv { a, end })
+}
+
+fn form() -> impl Strategy<Value = Form> {
+    prop_oneof![Just(Form::Inclusive), Just(Form::HalfOpen), Just(Form::Bounds), Just(Form::Interval)]
+}
+
+fn set_op_u64() -> impl Strategy<Value = SetOp> {
+    let iv = || iv_with(pos_u64().boxed());
+    let operand = || prop::collection::vec(iv(), 0..7);
+    prop_oneof![
+        10 => (iv(), form()).prop_map(|(iv, form)| SetOp::Insert { iv, form }),
+        2 => iv().prop_map(|iv| SetOp::InsertFront { iv }),
+        // below / at the minimum: the documented use of insert_front
+        2 => ((-6i8..=1), 0u32..=4).prop_map(|(delta, l)| SetOp::InsertFront { iv: Iv { a: Pos::Edge { idx: 0, end: false, delta }, end: End::Len(l) } }),
+        3 => pos_u64().prop_map(SetOp::InsertValue),
+        8 => (iv(), form()).prop_map(|(iv, form)| SetOp::Remove { iv, form }),
+        3 => pos_u64().prop_map(SetOp::RemoveValue),
+        2 => operand().prop_map(SetOp::Union),
+        2 => operand().prop_map(SetOp::Difference),
+        2 => operand().prop_map(SetOp::Intersection),
+        1 => operand().prop_map(SetOp::IntersectionIter),
+        1 => Just(SetOp::PopMin),
+        1 => prop::bool::weighted(0.15).prop_map(|c| if c { SetOp::Clear } else { SetOp::PopMin }),
+        1 => (0u8..=8).prop_map(SetOp::SetLimit),
+        2 => (pos_u64(), 2u8..=24, 0u8..=2, 0u8..=2).prop_map(|(base, n, width, gap)| SetOp::Comb { base, n, width, gap }),
+    ]
+}
+
+fn set_case_u64(_t: Tier) -> impl Strategy<Value = SetCase> {
+    (
+        prop_oneof![5 => Just(0u8), 1 => Just(1u8)],
+        prop_oneof![6 => Just(0u8), 4 => 1u8..=6, 1 => 16u8..=22],
+        prop::collection::vec(set_op_u64(), 1..50),
+    )
+        .prop_map(|(preset, limit, ops)| SetCase { preset, limit, ops })
+}
+
+// ---- exhaustive u8 sequences -----------------------------------------------------------
+
+const ALPHA: [[u8; 8]; 2] = [[0, 1, 2, 3, 4, 5, 254, 255], [0, 20, 21, 22, 23, 24, 25, 255]];
+const ENUM_LIMITS: [u8; 4] = [0, 1, 2, 3];
+
+fn enum_set_ops(mode: usize) -> &'static Vec<SetOp> {
+    static OPS: OnceLock<[Vec<SetOp>; 2]> = OnceLock::new();
+    let build = |mode: usize| -> Vec<SetOp> {
+        let v = ALPHA[mode];
+        let abs = |x: u8| Pos::Abs(x as u64);
+        let iv = |a: u8, b: u8| Iv { a: abs(a), end: End::At(abs(b)) };
+        let mut ops = vec![];
+        for i in 0..8 {
+            for j in i..8 {
+                ops.push(SetOp::Insert { iv: iv(v[i], v[j]), form: Form::Inclusive });
+                ops.push(SetOp::Remove { iv: iv(v[i], v[j]), form: if (i + j) % 2 == 0 { Form::Inclusive } else { Form::HalfOpen } });
+            }
+        }
+        for j in 0..8 {
+            ops.push(SetOp::InsertFront { iv: iv(v[0], v[j]) });
+        }
+        ops.push(SetOp::PopMin);
+        let operands: [Vec<Iv>; 4] = [
+            vec![iv(v[1], v[1]), iv(v[3], v[3]), iv(v[5], v[5])],
+            vec![iv(v[0], v[2]), iv(v[4], v[6])],
+            vec![iv(v[2], v[3])],
+            vec![iv(v[0], v[0]), iv(v[7], v[7])],
+        ];
+        for o in &operands {
+            ops.push(SetOp::Union(o.clone()));
+            ops.push(SetOp::Difference(o.clone()));
+            ops.push(SetOp::Intersection(o.clone()));
+        }
+        ops
+    };
+    &OPS.get_or_init(|| [build(0), build(1)])[mode]
+}
+
+/// number of sequences of length 1..=depth
+fn seq_count(n: u64, depth: u32) -> u64 {
+    let mut seqs = 0;
+    let mut block = 1;
+    for _ in 0..depth {
+        block *= n;
+        seqs += block;
+    }
+    seqs
+}
+
+/// quick: every sequence of <= 3 ops for 2 presets x 4 limits; thorough adds every sequence of 4 ops
+/// for 2 presets x limits {none, 2}
+fn enum_set_total(t: Tier) -> u64 {
+    let n = enum_set_ops(0).len() as u64;
+    let s3 = seq_count(n, 3);
+    match t {
+        Tier::Quick => 8 * s3,
+        Tier::Thorough => 8 * s3 + 4 * n * n * n * n,
+    }
+}
+
+fn decode_seq<T: Clone>(ops: &[T], mut idx: u64) -> Vec<T> {
+    let n = ops.len() as u64;
+    let mut len = 1;
+    let mut block = n;
+    while idx >= block {
+        idx -= block;
+        block *= n;
+        len += 1;
+    }
+    let mut out = Vec::with_capacity(len);
+    for _ in 0..len {
+        out.push(ops[(idx % n) as usize].clone());
+        idx /= n;
+    }
+    out
+}
+
+fn enum_set_case(_t: Tier, idx: u64) -> SetCase {
+    let n = enum_set_ops(0).len() as u64;
+    let s3 = seq_count(n, 3);
+    // the combination rotates with the sequence so that every shard sees all of them
+    let (seq, mode, limit) = if idx < 8 * s3 {
+        let seq = idx / 8;
+        let combo = ((idx % 8 + seq) % 8) as usize;
+        (seq, combo / 4, ENUM_LIMITS[combo % 4])
+    } else {
+        let rest = idx - 8 * s3;
+        let seq = s3 + rest / 4;
+        let combo = ((rest % 4 + seq) % 4) as usize;
+        (seq, combo / 2, [0u8, 2][combo % 2])
+    };
+    SetCase { preset: mode as u8, limit, ops: decode_seq(enum_set_ops(mode), seq) }
+}
+
+// ---- RangeBounds forms (bound kinds) ---------------------------------------------------
+
+#[derive(Clone, Debug, Hash, PartialEq, Eq, Serialize, Deserialize)]
+pub struct BoundsCase {
+    pub remove: bool,
+    /// 0 included, 1 excluded, 2 unbounded
+    pub start_kind: u8,
+    pub end_kind: u8,
+    pub a: u8,
+    pub b: u8,
+}
+
+const BOUNDS_VALUES: [u8; 14] = [5, 6, 1, 2, 3, 4, 7, 8, 9, 252, 253, 254, 255, 0];
+
+fn bounds_total(_t: Tier) -> u64 {
+    (2 * 3 * 3 * BOUNDS_VALUES.len() * BOUNDS_VALUES.len()) as u64
+}
+
+fn bounds_case(_t: Tier, mut idx: u64) -> BoundsCase {
+    let n = BOUNDS_VALUES.len() as u64;
+    let b = BOUNDS_VALUES[(idx % n) as usize];
+    idx /= n;
+    let a = BOUNDS_VALUES[(idx % n) as usize];
+    idx /= n;
+    let end_kind = (idx % 3) as u8;
+    idx /= 3;
+    let start_kind = (idx % 3) as u8;
+    idx /= 3;
+    BoundsCase { remove: idx % 2 == 1, start_kind, end_kind, a, b }
+}
+
+/// `insert`/`remove` take any `RangeBounds<T>`: the elements denoted by the bounds are the ones a
+/// reference set would add/remove. Unbounded sides may be refused (`InvalidInterval`), empty ranges
+/// may be refused or ignored; either way nothing else may change.
+fn run_bounds(c: &BoundsCase, obs: &mut Obs) -> CaseResult {
+    model_selftest();
+    let mut set: IntervalSet<u8> = IntervalSet::new();
+    let mut m = ISet::default();
+    for (s, e) in [(2u8, 4u8), (7, 7), (253, 254)] {
+        set.insert(s..=e).unwrap();
+        m = m.insert(s as u64, e as u64);
+    }
+    let bound = |k: u8, v: u8| match k {
+        0 => Bound::Included(v),
+        1 => Bound::Excluded(v),
+        _ => Bound::Unbounded,
+    };
+    let r = (bound(c.start_kind, c.a), bound(c.end_kind, c.b));
+    let lo: Option<u64> = match c.start_kind {
+        0 => Some(c.a as u64),
+        1 => (c.a < 255).then(|| c.a as u64 + 1),
+        _ => Some(0),
+    };
+    let hi: Option<u64> = match c.end_kind {
+        0 => Some(c.b as u64),
+        1 => (c.b > 0).then(|| c.b as u64 - 1),
+        _ => Some(255),
+    };
+    let denoted = match (lo, hi) {
+        (Some(lo), Some(hi)) if lo <= hi => Some((lo, hi)),
+        _ => None,
+    };
+    let got = if c.remove { set.remove(r) } else { set.insert(r) };
+    let unbounded = c.start_kind == 2 || c.end_kind == 2;
+    let applied = |m: &ISet, (lo, hi): (u64, u64)| if c.remove { m.remove(lo, hi) } else { m.insert(lo, hi) };
+    let key = if c.start_kind == 1 { "interval_set:excluded-start-bound" } else { "interval_set:range-bounds" };
+    let want: ISet = match (denoted, &got) {
+        (None, Ok(())) | (None, Err(IntervalSetError::InvalidInterval)) => {
+            obs.class("empty-range");
+            m.clone()
+        }
+        (Some(_), Err(IntervalSetError::InvalidInterval)) if unbounded => {
+            obs.class("unbounded-refused");
+            m.clone()
+        }
+        (Some(d), Ok(())) => {
+            obs.nontrivial(m.touching(d.0, d.1) >= 2 || applied(&m, d).len() > m.len());
+            applied(&m, d)
+        }
+        _ => fail!(key, "{c:?}: {} {r:?} on {:?} returned {got:?}; the range denotes {denoted:?}", if c.remove { "remove" } else { "insert" }, m.iv),
+    };
+    let have = read_intervals(&set);
+    ensure_that!(have == want.iv, key, "{c:?}: {} {r:?} (denoting {denoted:?}) on {:?} returned {got:?} and left {have:?}; a reference set holds {:?}", if c.remove { "remove" } else { "insert" }, m.iv, want.iv);
+    compare_set("interval_set", 0, c, &set, &want)?;
+    obs.units = 1;
+    Ok(())
+}
+
+// =======================================================================================
+// ack::Ranges
+
+#[derive(Clone, Debug, Hash, PartialEq, Eq, Serialize, Deserialize)]
+pub enum RangesOp {
+    InsertRange(Iv),
+    InsertPn(Pos),
+    /// through `DerefMut<Target = IntervalSet<PacketNumber>>`, as the ack manager does
+    Remove(Iv),
+    PopMin,
+    Clear,
+}
+
+#[derive(Clone, Debug, Hash, PartialEq, Eq, Serialize, Deserialize)]
+pub struct RangesCase {
+    /// 1..=10
+    pub limit: u8,
+    pub ops: Vec<RangesOp>,
+}
+
+pub fn run_ranges(case: &RangesCase, obs: &mut Obs) -> CaseResult {
+    model_selftest();
+    let px = "ack_ranges";
+    let limit = case.limit.max(1) as usize;
+    let mut ranges = ack::Ranges::new(limit);
+    let mut m = ISet::default();
+    let mut evictions = 0u32;
+    let mut rejected = 0u32;
+    for (step, op) in case.ops.iter().enumerate() {
+        match op {
+            RangesOp::InsertRange(_) | RangesOp::InsertPn(_) => {
+                let (a, b, got) = match op {
+                    RangesOp::InsertRange(iv) => {
+                        let (a, b) = resolve_iv(&m, *iv, PN_MAX);
+                        // PacketNumberRange::new requires start <= end
+                        let (a, b) = (a.min(b), a.max(b));
+                        (a, b, ranges.insert_packet_number_range(PacketNumberRange::new(pn(a), pn(b))))
+                    }
+                    RangesOp::InsertPn(p) => {
+                        let a = resolve_pos(&m, *p, PN_MAX);
+                        (a, a, ranges.insert_packet_number(pn(a)))
+                    }
+                    _ => unreachable!(),
+                };
+                let new = m.insert(a, b);
+                if new.len() <= limit {
+                    ensure_that!(got.is_ok(), "ack_ranges:insert-result", "step {step} {op:?}: insert [{a}, {b}] into {:?} (limit {limit}) returned {got:?}, expected Ok", m.iv);
+                    obs.class_if(m.touching(a, b) >= 2, "merge>=2");
+                    m = new;
+                } else {
+                    // full: a range above the lowest one evicts the lowest one (only); a range
+                    // below it is rejected
+                    assert_eq!(new.len(), limit + 1);
+                    let lowest = m.iv[0];
+                    if lowest.1 < a {
+                        let want = ack::ranges::Error::LowestRangeDropped { min: pn(lowest.0), max: pn(lowest.1) };
+                        ensure_that!(got == Err(want), "ack_ranges:insert-result", "step {step} {op:?}: insert [{a}, {b}] into full {:?} (limit {limit}) returned {got:?}, expected {want:?}", m.iv);
+                        m = new;
+                        m.iv.remove(0);
+                        evictions += 1;
+                    } else {
+                        let want = ack::ranges::Error::RangeInsertionFailed { min: pn(a), max: pn(b) };
+                        ensure_that!(got == Err(want), "ack_ranges:insert-result", "step {step} {op:?}: insert [{a}, {b}] below the minimum of full {:?} (limit {limit}) returned {got:?}, expected {want:?}", m.iv);
+                        rejected += 1;
+                    }
+                }
+            }
+            RangesOp::Remove(iv) => {
+                let (a, b) = resolve_iv(&m, *iv, PN_MAX);
+                let (a, b) = (a.min(b), a.max(b));
+                let got = ranges.remove(pn(a)..=pn(b));
+                match model_remove(&m, a, b, Some(limit)) {
+                    RemoveExpect::Ok(new) => {
+                        ensure_that!(got.is_ok(), "ack_ranges:remove-result", "step {step} {op:?}: remove [{a}, {b}] from {:?} (limit {limit}) returned {got:?}", m.iv);
+                        obs.class_if(new.len() > m.len(), "split");
+                        m = new;
+                    }
+                    RemoveExpect::MustReject => {
+                        obs.class("remove-limit-exceeded");
+                        ensure_that!(got == Err(IntervalSetError::LimitExceeded), "ack_ranges:remove-result", "step {step} {op:?}: splitting remove [{a}, {b}] from full {:?} (limit {limit}) returned {got:?}", m.iv);
+                    }
+                    RemoveExpect::Either(new) => match got {
+                        Ok(()) => m = new,
+                        Err(IntervalSetError::LimitExceeded) => obs.class("remove-split-onto-limit-rejected"),
+                        Err(e) => fail!("ack_ranges:remove-result", "step {step} {op:?}: returned {e:?}"),
+                    },
+                }
+            }
+            RangesOp::PopMin => {
+                let got = ranges.pop_min().map(|i| (i.start_inclusive().as_u64(), i.end_inclusive().as_u64()));
+                let want = m.iv.first().copied();
+                ensure_that!(got == want, "ack_ranges:pop_min", "step {step}: pop_min returned {got:?}, expected {want:?}");
+                if want.is_some() {
+                    m.iv.remove(0);
+                }
+            }
+            RangesOp::Clear => {
+                ranges.clear();
+                m = ISet::default();
+            }
+        }
+        compare_set::<PacketNumber>(px, step, op, &ranges, &m)?;
+        ensure_that!(ranges.interval_len() <= limit, "ack_ranges:limit", "step {step} {op:?}: {} ranges with limit {limit}", ranges.interval_len());
+        let spread = match (m.iv.first(), m.iv.last()) {
+            (Some(f), Some(l)) => l.1 - f.0,
+            _ => 0,
+        };
+        ensure_that!(ranges.spread() as u64 == spread, "ack_ranges:spread", "step {step} {op:?}: spread {} model {spread}", ranges.spread());
+        let frame: Vec<(u64, u64)> = (&ranges).ack_ranges().map(|r| (r.start().as_u64(), r.end().as_u64())).collect();
+        let mut want = m.iv.clone();
+        want.reverse();
+        ensure_that!(frame == want, "ack_ranges:ack_ranges", "step {step} {op:?}: ack_ranges() {frame:?}, expected {want:?}");
+    }
+    obs.units = case.ops.len() as u64;
+    obs.nontrivial(evictions > 0);
+    obs.class_if(evictions > 0, "evicted-lowest");
+    obs.class_if(evictions >= 5, "evicted>=5");
+    obs.class_if(rejected > 0, "rejected-below-min");
+    obs.class_if(limit == 1, "limit=1");
+    obs.class_if(limit == 10, "limit=10");
+    Ok(())
+}
+
+fn val_pn() -> impl Strategy<Value = u64> {
+    prop_oneof![
+        4 => 0u64..=64,
+        2 => (0u64..=8).prop_map(|d| PN_MAX - d),
+        1 => 0u64..=PN_MAX,
+    ]
+}
+
+fn pos_pn() -> impl Strategy<Value = Pos> {
+    prop_oneof![
+        // above the maximum (the usual receive order): adjacent, one gap, larger gaps
+        6 => (0i8..=4).prop_map(|delta| Pos::Edge { idx: u16::MAX, end: true, delta }),
+        1 => (5i8..=100).prop_map(|delta| Pos::Edge { idx: u16::MAX, end: true, delta }),
+        // around / below the minimum
+        3 => (-4i8..=2).prop_map(|delta| Pos::Edge { idx: 0, end: false, delta }),
+        4 => edge_pos(),
+        2 => val_pn().prop_map(Pos::Abs),
+    ]
+}
+
+fn ranges_case(_t: Tier) -> impl Strategy<Value = RangesCase> {
+    let iv = || iv_with(pos_pn().boxed());
+    let op = prop_oneof![
+        8 => pos_pn().prop_map(RangesOp::InsertPn),
+        6 => iv().prop_map(RangesOp::InsertRange),
+        3 => iv().prop_map(RangesOp::Remove),
+        1 => Just(RangesOp::PopMin),
+        1 => prop::bool::weighted(0.1).prop_map(|c| if c { RangesOp::Clear } else { RangesOp::PopMin }),
+    ];
+    (1u8..=10, prop::collection::vec(op, 1..70)).prop_map(|(limit, ops)| RangesCase { limit, ops })
+}
+
+// =======================================================================================
+// packet::number::Map
+
+#[derive(Clone, Copy, Debug, Hash, PartialEq, Eq, Serialize, Deserialize)]
+pub enum MapPos {
+    /// idx-th present key + delta
+    Key { idx: u16, delta: i8 },
+    Start(i8),
+    End(i8),
+    Abs(u64),
+}
+
+#[derive(Clone, Copy, Debug, Hash, PartialEq, Eq, Serialize, Deserialize)]
+pub enum MapEnd {
+    /// a + len
+    Len(u16),
+    At(MapPos),
+}
+
+#[derive(Clone, Debug, Hash, PartialEq, Eq, Serialize, Deserialize)]
+pub enum MapOp {
+    /// `insert` of a packet number above everything inserted before: high-water mark + 1 + gap
+    Insert { gap: u16 },
+    InsertOrUpdate { at: MapPos },
+    Remove(MapPos),
+    /// `remove_range`, consuming `take` items of the returned iterator before dropping it
+    RemoveRange { a: MapPos, b: MapEnd, take: u8 },
+    Get(MapPos),
+    Clear,
+    IterMut,
+}
+
+#[derive(Clone, Debug, Hash, PartialEq, Eq, Serialize, Deserialize)]
+pub struct MapCase {
+    pub base: u64,
+    pub ops: Vec<MapOp>,
+}
+
+/// the map allocates one slot per packet number between its lowest and highest key
+const MAP_SPAN: u64 = 5000;
+
+fn resolve_map_pos(m: &BTreeMap<u64, u32>, hwm: Option<u64>, base: u64, p: MapPos) -> u64 {
+    let first = m.keys().next().copied();
+    let last = m.keys().next_back().copied();
+    let fallback = hwm.unwrap_or(base);
+    match p {
+        MapPos::Key { idx, delta } => {
+            if m.is_empty() {
+                shift(fallback, delta as i64, PN_MAX)
+            } else {
+                let k = *m.keys().nth(pick_index(idx, m.len())).unwrap();
+                shift(k, delta as i64, PN_MAX)
+            }
+        }
+        MapPos::Start(d) => shift(first.unwrap_or(fallback), d as i64, PN_MAX),
+        MapPos::End(d) => shift(last.unwrap_or(fallback), d as i64, PN_MAX),
+        MapPos::Abs(v) => v.min(PN_MAX),
+    }
+}
+
+fn compare_map(step: usize, op: &MapOp, map: &Map<u32>, m: &BTreeMap<u64, u32>) -> CaseResult {
+    ensure_that!(map.is_empty() == m.is_empty(), "pn_map:is_empty", "step {step} {op:?}: is_empty {} model {}", map.is_empty(), m.is_empty());
+    let got: Vec<(u64, u32)> = map.iter().map(|(k, v)| (k.as_u64(), *v)).collect();
+    let want: Vec<(u64, u32)> = m.iter().map(|(k, v)| (*k, *v)).collect();
+    ensure_that!(got == want, "pn_map:iter", "step {step} {op:?}: iter() {got:?}, reference map {want:?}");
+    if let (Some(first), Some(last)) = (m.keys().next(), m.keys().next_back()) {
+        let r = map.get_range();
+        let r = (r.start().as_u64(), r.end().as_u64());
+        ensure_that!(r == (*first, *last), "pn_map:get_range", "step {step} {op:?}: get_range {r:?}, reference map spans ({first}, {last})");
+        let probe = |k: u64| -> CaseResult {
+            let got = map.get(pn(k)).copied();
+            ensure_that!(got == m.get(&k).copied(), "pn_map:get", "step {step} {op:?}: get({k}) = {got:?}, reference map {:?}", m.get(&k));
+            Ok(())
+        };
+        if last - first <= 200 {
+            for k in first.saturating_sub(2)..=last.saturating_add(2).min(PN_MAX) {
+                probe(k)?;
+            }
+        } else {
+            for (i, k) in m.keys().enumerate() {
+                if i < 40 || i + 40 >= m.len() {
+                    probe(*k)?;
+                    probe(k.saturating_sub(1))?;
+                    probe(k.saturating_add(1).min(PN_MAX))?;
+                }
+            }
+            probe(first.saturating_sub(1))?;
+            probe(last.saturating_add(1).min(PN_MAX))?;
+        }
+    } else {
+        for k in [0, 1, PN_MAX] {
+            ensure_that!(map.get(pn(k)).is_none(), "pn_map:get", "step {step} {op:?}: get({k}) on an empty map returned a value");
+        }
+    }
+    Ok(())
+}
+
+pub fn run_map(case: &MapCase, obs: &mut Obs) -> CaseResult {
+    let base = case.base.min(PN_MAX);
+    let mut map: Map<u32> = Map::default();
+    let mut m: BTreeMap<u64, u32> = BTreeMap::new();
+    // highest packet number ever inserted
+    let mut hwm: Option<u64> = None;
+    let mut gap_range = false;
+    let mut units = 0;
+    for (step, op) in case.ops.iter().enumerate() {
+        let value = step as u32 + 1;
+        let first = m.keys().next().copied();
+        match op {
+            MapOp::Insert { gap } => {
+                let k = match hwm {
+                    Some(h) => h.saturating_add(1 + *gap as u64),
+                    None => base.saturating_add(*gap as u64),
+                };
+                if k > PN_MAX || first.map(|f| k - f > MAP_SPAN).unwrap_or(false) {
+                    obs.class("insert-skipped");
+                    continue;
+                }
+                map.insert(pn(k), value);
+                m.insert(k, value);
+                hwm = Some(k);
+                obs.class_if(*gap > 0, "insert-with-gap");
+            }
+            MapOp::InsertOrUpdate { at } => {
+                let mut k = resolve_map_pos(&m, hwm, base, *at);
+                if let Some(f) = first {
+                    // documented: not lower than the start
+                    k = k.max(f);
+                    if k - f > MAP_SPAN {
+                        obs.class("insert-skipped");
+                        continue;
+                    }
+                } else {
+                    // empty map: stay near the packet numbers used so far
+                    let near = hwm.unwrap_or(base);
+                    k = k.clamp(near.saturating_sub(64), near.saturating_add(64).min(PN_MAX));
+                }
+                map.insert_or_update(pn(k), value, |prev| *prev = prev.wrapping_mul(31).wrapping_add(value));
+                match m.get_mut(&k) {
+                    Some(prev) => {
+                        *prev = prev.wrapping_mul(31).wrapping_add(value);
+                        obs.class("update-existing");
+                    }
+                    None => {
+                        obs.class_if(m.keys().next_back().map(|l| k < *l).unwrap_or(false), "insert-into-hole");
+                        m.insert(k, value);
+                    }
+                }
+                hwm = Some(hwm.map_or(k, |h| h.max(k)));
+            }
+            MapOp::Remove(p) => {
+                let k = resolve_map_pos(&m, hwm, base, *p);
+                let got = map.remove(pn(k));
+                let want = m.remove(&k);
+                ensure_that!(got == want, "pn_map:remove", "step {step} {op:?}: remove({k}) returned {got:?}, reference map {want:?}");
+                obs.class_if(want.is_some() && Some(k) == first, "remove-first");
+            }
+            MapOp::RemoveRange { a, b, take } => {
+                let a = resolve_map_pos(&m, hwm, base, *a);
+                let b = match b {
+                    MapEnd::Len(l) => a.saturating_add(*l as u64).min(PN_MAX),
+                    MapEnd::At(p) => resolve_map_pos(&m, hwm, base, *p),
+                };
+                let (a, b) = (a.min(b), a.max(b));
+                let want: Vec<(u64, u32)> = m.range(a..=b).map(|(k, v)| (*k, *v)).collect();
+                let take = if *take == u8::MAX { usize::MAX } else { *take as usize };
+                let got: Vec<(u64, u32)> = map.remove_range(PacketNumberRange::new(pn(a), pn(b))).take(take).map(|(k, v)| (k.as_u64(), v)).collect();
+                let want_prefix = &want[..want.len().min(take)];
+                ensure_that!(got == want_prefix, "pn_map:remove_range", "step {step} {op:?}: remove_range({a}..={b}) yielded {got:?}, reference map holds {want:?} there (taking {take})");
+                if want.len() >= 2 && (want.last().unwrap().0 - want[0].0) as usize > want.len() - 1 {
+                    gap_range = true;
+                    obs.class("remove_range-over-gap");
+                }
+                obs.class_if(take < want.len(), "remove_range-dropped-early");
+                obs.class_if(!want.is_empty() && want.len() == m.len(), "remove_range-all");
+                for (k, _) in &want {
+                    m.remove(k);
+                }
+            }
+            MapOp::Get(p) => {
+                let k = resolve_map_pos(&m, hwm, base, *p);
+                let got = map.get(pn(k)).copied();
+                ensure_that!(got == m.get(&k).copied(), "pn_map:get", "step {step} {op:?}: get({k}) = {got:?}, reference map {:?}", m.get(&k));
+            }
+            MapOp::Clear => {
+                map.clear();
+                m.clear();
+            }
+            MapOp::IterMut => {
+                let mut seen = vec![];
+                for (k, v) in map.iter_mut() {
+                    *v = v.wrapping_add(1_000_000);
+                    seen.push(k.as_u64());
+                }
+                let want: Vec<u64> = m.keys().copied().collect();
+                ensure_that!(seen == want, "pn_map:iter_mut", "step {step}: iter_mut() visited {seen:?}, reference map keys {want:?}");
+                for v in m.values_mut() {
+                    *v = v.wrapping_add(1_000_000);
+                }
+            }
+        }
+        units += 1;
+        compare_map(step, op, &map, &m)?;
+        obs.class_if(m.len() > 8, "grown");
+    }
+    obs.units = units;
+    obs.nontrivial(gap_range);
+    Ok(())
+}
+
+fn map_pos() -> impl Strategy<Value = MapPos> {
+    prop_oneof![
+        5 => (any::<u16>(), -2i8..=2).prop_map(|(idx, delta)| MapPos::Key { idx, delta }),
+        2 => (any::<u16>(), Just(0i8)).prop_map(|(idx, delta)| MapPos::Key { idx, delta }),
+        3 => (-3i8..=3).prop_map(MapPos::Start),
+        3 => (-3i8..=3).prop_map(MapPos::End),
+        1 => any::<i8>().prop_map(MapPos::End),
+        1 => prop_oneof![0u64..=40, Just(PN_MAX), 0u64..=PN_MAX].prop_map(MapPos::Abs),
+    ]
+}
+
+fn map_end() -> impl Strategy<Value = MapEnd> {
+    prop_oneof![
+        6 => (0u16..=6).prop_map(MapEnd::Len),
+        2 => (0u16..=40).prop_map(MapEnd::Len),
+        1 => (0u16..=3000).prop_map(MapEnd::Len),
+        2 => map_pos().prop_map(MapEnd::At),
+    ]
+}
+
+fn map_case(_t: Tier) -> impl Strategy<Value = MapCase> {
+    let gap = prop_oneof![
+        12 => Just(0u16),
+        5 => 1u16..=3,
+        2 => 1u16..=20,
+        1 => 1u16..=600,
+    ];
+    let op = prop_oneof![
+        12 => gap.prop_map(|gap| MapOp::Insert { gap }),
+        3 => map_pos().prop_map(|at| MapOp::InsertOrUpdate { at }),
+        4 => map_pos().prop_map(MapOp::Remove),
+        5 => (map_pos(), map_end(), prop_oneof![4 => Just(u8::MAX), 1 => 0u8..=3]).prop_map(|(a, b, take)| MapOp::RemoveRange { a, b, take }),
+        1 => map_pos().prop_map(MapOp::Get),
+        1 => prop::bool::weighted(0.2).prop_map(|c| if c { MapOp::Clear } else { MapOp::IterMut }),
+    ];
+    let base = prop_oneof![
+        4 => 0u64..=3,
+        3 => 0u64..=100_000,
+        1 => (0u64..=80).prop_map(|d| PN_MAX - d),
+        1 => 0u64..=PN_MAX,
+    ];
+    (base, prop::collection::vec(op, 1..80)).prop_map(|(base, ops)| MapCase { base, ops })
+}
+
+// =======================================================================================
+// SlidingWindow
+
+/// read from `sliding_window.rs`: a 128-bit field for the packet numbers below the right edge
+/// plus the right edge itself
+const WINDOW_WIDTH: u64 = 129;
+
+#[derive(Clone, Copy, Debug, Hash, PartialEq, Eq, Serialize, Deserialize)]
+pub enum SwPos {
+    /// right edge + d
+    Right(u16),
+    /// right edge - d
+    Left(u16),
+    Abs(u64),
+}
+
+#[derive(Clone, Copy, Debug, Hash, PartialEq, Eq, Serialize, Deserialize)]
+pub enum SwOp {
+    Insert(SwPos),
+    InsertWithEvicted(SwPos),
+    Check(SwPos),
+}
+
+#[derive(Clone, Debug, Hash, PartialEq, Eq, Serialize, Deserialize)]
+pub struct SwCase {
+    pub base: u64,
+    pub ops: Vec<SwOp>,
+}
+
+#[derive(Default)]
+struct SwModel {
+    right_edge: Option<u64>,
+    /// every packet number ever inserted successfully
+    seen: BTreeSet<u64>,
+}
+
+#[derive(Debug, PartialEq, Eq, Clone, Copy)]
+enum SwVerdict {
+    Fresh,
+    Duplicate,
+    TooOld,
+}
+
+impl SwModel {
+    fn check(&self, x: u64) -> SwVerdict {
+        match self.right_edge {
+            None => SwVerdict::Fresh,
+            Some(re) if x > re => SwVerdict::Fresh,
+            Some(re) if re - x >= WINDOW_WIDTH => SwVerdict::TooOld,
+            Some(_) if self.seen.contains(&x) => SwVerdict::Duplicate,
+            Some(_) => SwVerdict::Fresh,
+        }
+    }
+    /// returns the evicted packet numbers: never inserted, inside the old window, outside the new
+    fn insert(&mut self, x: u64) -> Result<Vec<u64>, SwVerdict> {
+        match self.check(x) {
+            SwVerdict::Fresh => {}
+            v => return Err(v),
+        }
+        self.seen.insert(x);
+        let mut evicted = vec![];
+        match self.right_edge {
+            None => self.right_edge = Some(x),
+            Some(old) if x > old => {
+                let old_left = old.saturating_sub(WINDOW_WIDTH - 1);
+                for y in old_left..old {
+                    if x - y >= WINDOW_WIDTH && !self.seen.contains(&y) {
+                        evicted.push(y);
+                    }
+                }
+                self.right_edge = Some(x);
+            }
+            Some(_) => {}
+        }
+        Ok(evicted)
+    }
+}
+
+fn verdict_of(r: &Result<(), SlidingWindowError>) -> SwVerdict {
+    match r {
+        Ok(()) => SwVerdict::Fresh,
+        Err(SlidingWindowError::Duplicate) => SwVerdict::Duplicate,
+        Err(SlidingWindowError::TooOld) => SwVerdict::TooOld,
+    }
+}
+
+pub fn run_sw(case: &SwCase, obs: &mut Obs) -> CaseResult {
+    let base = case.base.min(PN_MAX);
+    let mut sw = SlidingWindow::default();
+    let mut m = SwModel::default();
+    let mut evictions = 0usize;
+    for (step, op) in case.ops.iter().enumerate() {
+        let resolve = |p: SwPos| -> u64 {
+            let re = m.right_edge.unwrap_or(base);
+            match p {
+                SwPos::Right(d) => re.saturating_add(d as u64).min(PN_MAX),
+                SwPos::Left(d) => re.saturating_sub(d as u64),
+                SwPos::Abs(v) => v.min(PN_MAX),
+            }
+        };
+        match *op {
+            SwOp::Check(p) => {
+                let x = resolve(p);
+                let got = verdict_of(&sw.check(pn(x)));
+                ensure_that!(got == m.check(x), "sliding_window:check", "step {step} {op:?}: check({x}) = {got:?}, model {:?} (right edge {:?})", m.check(x), m.right_edge);
+            }
+            SwOp::Insert(p) => {
+                let x = resolve(p);
+                let old = m.right_edge;
+                let got = verdict_of(&sw.insert(pn(x)));
+                let want = match m.insert(x) {
+                    Ok(ev) => {
+                        evictions += ev.len();
+                        SwVerdict::Fresh
+                    }
+                    Err(v) => v,
+                };
+                ensure_that!(got == want, "sliding_window:insert-result", "step {step} {op:?}: insert({x}) with right edge {old:?} returned {got:?}, model {want:?}");
+                obs.class_if(want == SwVerdict::Duplicate, "duplicate");
+                obs.class_if(want == SwVerdict::TooOld, "too-old");
+            }
+            SwOp::InsertWithEvicted(p) => {
+                let x = resolve(p);
+                let old = m.right_edge;
+                let got = sw.insert_with_evicted(pn(x));
+                let want = m.insert(x);
+                match (got, want) {
+                    (Ok(set), Ok(ev)) => {
+                        let mut got: Vec<u64> = set.map(|p| p.as_u64()).collect();
+                        got.sort();
+                        ensure_that!(got.windows(2).all(|w| w[0] != w[1]), "sliding_window:evicted-set", "step {step} {op:?}: EvictedSet yields a packet number twice: {got:?}");
+                        ensure_that!(got == ev, "sliding_window:evicted-set", "step {step} {op:?}: insert({x}) with right edge {old:?} evicted {got:?}, model {ev:?}");
+                        evictions += ev.len();
+                        obs.class_if(ev.len() == 128, "evicted-whole-window");
+                        obs.class_if(old.map(|o| x > o && x - o >= WINDOW_WIDTH).unwrap_or(false), "far-jump");
+                    }
+                    (Err(e), Err(v)) => {
+                        let got = verdict_of(&Err(e));
+                        ensure_that!(got == v, "sliding_window:insert-result", "step {step} {op:?}: insert({x}) with right edge {old:?} returned {got:?}, model {v:?}");
+                        obs.class_if(v == SwVerdict::Duplicate, "duplicate");
+                        obs.class_if(v == SwVerdict::TooOld, "too-old");
+                    }
+                    (got, want) => {
+                        let got = got.map(|s| s.map(|p| p.as_u64()).collect::<Vec<_>>());
+                        fail!("sliding_window:insert-result", "step {step} {op:?}: insert({x}) with right edge {old:?} returned {got:?}, model {want:?}");
+                    }
+                }
+            }
+        }
+        // full observable state: the verdict for every packet number around the window
+        if let Some(re) = m.right_edge {
+            let lo = re.saturating_sub(WINDOW_WIDTH + 3);
+            let hi = re.saturating_add(3).min(PN_MAX);
+            for x in lo..=hi {
+                let got = verdict_of(&sw.check(pn(x)));
+                ensure_that!(got == m.check(x), "sliding_window:content", "step {step} {op:?}: check({x}) = {got:?}, model {:?} (right edge {re}, distance {})", m.check(x), re as i128 - x as i128);
+            }
+        } else {
+            for x in [0, 1, base, PN_MAX] {
+                ensure_that!(sw.check(pn(x)).is_ok(), "sliding_window:content", "step {step} {op:?}: empty window rejects {x}");
+            }
+        }
+    }
+    obs.units = case.ops.len() as u64;
+    obs.nontrivial(evictions > 0);
+    obs.class_if(evictions > 0, "evicted");
+    Ok(())
+}
+
+fn sw_pos() -> impl Strategy<Value = SwPos> {
+    let edge = || prop_oneof![Just(126u16), Just(127), Just(128), Just(129), Just(130), Just(1), Just(2), Just(255), Just(256), Just(257)];
+    prop_oneof![
+        5 => (0u16..=4).prop_map(SwPos::Right),
+        3 => (0u16..=300).prop_map(SwPos::Right),
+        3 => edge().prop_map(SwPos::Right),
+        4 => (0u16..=300).prop_map(SwPos::Left),
+        4 => edge().prop_map(SwPos::Left),
+        2 => (0u16..=8).prop_map(SwPos::Left),
+        1 => prop_oneof![0u64..=300, 0u64..=PN_MAX, (0u64..=300).prop_map(|d| PN_MAX - d)].prop_map(SwPos::Abs),
+    ]
+}
+
+fn sw_case(_t: Tier) -> impl Strategy<Value = SwCase> {
+    let op = prop_oneof![
+        3 => sw_pos().prop_map(SwOp::Insert),
+        6 => sw_pos().prop_map(SwOp::InsertWithEvicted),
+        1 => sw_pos().prop_map(SwOp::Check),
+    ];
+    let base = prop_oneof![
+        3 => 0u64..=300,
+        2 => 0u64..=100_000,
+        2 => (0u64..=400).prop_map(|d| PN_MAX - d),
+        1 => 0u64..=PN_MAX,
+    ];
+    (base, prop::collection::vec(op, 1..60)).prop_map(|(base, ops)| SwCase { base, ops })
+}
+
+const SW_ALPHA: [u64; 16] = [0, 1, 2, 126, 127, 128, 129, 130, 131, 255, 256, 257, 258, 259, 260, 387];
+
+fn sw_enum_total(t: Tier) -> u64 {
+    let n = SW_ALPHA.len() as u64;
+    let mut seqs = 0;
+    let mut block = 1;
+    for _ in 0..t.pick(4, 5) {
+        block *= n;
+        seqs += block;
+    }
+    seqs
+}
+
+fn sw_enum_case(_t: Tier, idx: u64) -> SwCase {
+    static OPS: OnceLock<Vec<SwOp>> = OnceLock::new();
+    let ops = OPS.get_or_init(|| SW_ALPHA.iter().map(|v| SwOp::InsertWithEvicted(SwPos::Abs(*v))).collect());
+    SwCase { base: 0, ops: decode_seq(ops, idx) }
+}
+
+// =======================================================================================
 
 pub fn subs() -> Vec<Box<dyn SubCheck>> {
-    vec![]
+    vec![
+        Box::new(EnumCheck::<SetCase> {
+            name: "interval_set_u8_exhaustive",
+            total: enum_set_total,
+            case: enum_set_case,
+            oracle: run_set::<u8>,
+        }),
+        Box::new(EnumCheck::<BoundsCase> {
+            name: "interval_set_bounds_exhaustive",
+            total: bounds_total,
+            case: bounds_case,
+            oracle: run_bounds,
+        }),
+        Box::new(PropCheck::<SetCase, _> {
+            name: "interval_set_ops",
+            cases: |t| t.pick(160_000, 4_000_000),
+            strategy: set_case_u64,
+            oracle: run_set::<u64>,
+            max_shrink_iters: 20_000,
+        }),
+        Box::new(PropCheck::<RangesCase, _> {
+            name: "ack_ranges_ops",
+            cases: |t| t.pick(250_000, 4_000_000),
+            strategy: ranges_case,
+            oracle: run_ranges,
+            max_shrink_iters: 20_000,
+        }),
+        Box::new(PropCheck::<MapCase, _> {
+            name: "pn_map_ops",
+            cases: |t| t.pick(250_000, 4_000_000),
+            strategy: map_case,
+            oracle: run_map,
+            max_shrink_iters: 20_000,
+        }),
+        Box::new(EnumCheck::<SwCase> {
+            name: "sliding_window_exhaustive",
+            total: sw_enum_total,
+            case: sw_enum_case,
+            oracle: run_sw,
+        }),
+        Box::new(PropCheck::<SwCase, _> {
+            name: "sliding_window_ops",
+            cases: |t| t.pick(160_000, 2_000_000),
+            strategy: sw_case,
+            oracle: run_sw,
+            max_shrink_iters: 20_000,
+        }),
+    ]
 }
